@@ -5,6 +5,7 @@ import CifModel.Lemmas.WriterFold
 import CifModel.Lemmas.WriterText
 import CifModel.Lemmas.DecodeMarker
 import CifModel.Lemmas.WriterChar
+import CifModel.Lemmas.WriterAnalysis
 /-
   Property C02 — everything `cif_write` emits re-parses to an equivalent CIF.
 
@@ -91,11 +92,45 @@ structure C02_AnalysisFacts (s : Str) (a : Model.Analysis) : Prop where
   semis : a.maxSemiRun = 0 → (59 : CU) ∉ s
   reserved : a.delimLength = 2 → a.hasReservedStart = false → C02_plainAdmissible s
 
+/-- the facts hold of the analysis `cif_analyze_string` computes for any CR-free string (proved here directly from the
+    counting loop of the model of group gA; they are also instances of `C18_stats_exact`) -/
+theorem C02_analysis_facts (s : Str) (unq tri : Bool) (limit : Nat) (hcr : (13 : CU) ∉ s) :
+    C02_AnalysisFacts s (Model.analyze s unq tri limit) := by
+  constructor
+  · exact Lemmas.WriterAnalysis.maxSemiRun_zero s unq tri limit
+  · intro hd hr
+    unfold Model.analyze at hd hr
+    simp only at hd hr
+    cases hc : Model.chooseDelim s unq tri limit (Model.counters s) <;> simp [hc, Model.Delim.units] at hd
+    simp only [hc, ↓reduceIte] at hr
+    unfold Model.reservedStart at hr
+    by_cases h59 : Model.unitAt s 0 = 59
+    · left
+      cases s with
+      | nil => simp [Model.unitAt] at h59
+      | cons c r => simp [Model.unitAt] at h59; simp [h59]
+    · right
+      simp only [h59, ↓reduceIte] at hr
+      have hfl := Lemmas.WriterAnalysis.firstLine_exact s {} hcr rfl rfl
+      simp only [↓reduceIte, Nat.zero_add] at hfl
+      have hcnt : (Model.counters s).firstLine = (s.takeWhile (· != 10)).length := hfl
+      rw [hcnt] at hr
+      have htake : ∀ (l : Str), l.take (l.takeWhile (· != 10)).length = l.takeWhile (· != 10) := by
+        intro l
+        induction l with
+        | nil => rfl
+        | cons a t ih =>
+          by_cases ha : (a != 10) = true
+          · simp [List.takeWhile, ha, ih]
+          · simp [List.takeWhile, ha]
+      rw [htake, Lemmas.WriterAnalysis.reservedStartScan_reverse] at hr
+      exact hr
+
 /-- the flags `write_char` derives from the analysis (`fold`, `prefix`) -/
 abbrev C02_flags (a : Model.Analysis) : Bool × Bool := Lemmas.WriterChar.charFlags a
 
 /-- with the flags `write_char` derives, semicolons are harmless: prefixing, or no semicolon at all when folding -/
-theorem C02_flags_semis (s : Str) (a : Model.Analysis) (hA : C02_AnalysisFacts s a) :
+theorem C02_flags_semis (s : Str) (a : Model.Analysis) (hsemis : a.maxSemiRun = 0 → (59 : CU) ∉ s) :
     (C02_flags a).1 = false ∧ (C02_flags a).2 = false ∨ (C02_flags a).2 = true ∨ (59 : CU) ∉ s := by
   unfold C02_flags Lemmas.WriterChar.charFlags
   by_cases hpre : (a.containsTextDelim || ((decide (a.lengthFirst ≥ LINE) || decide (a.lengthMax > LINE) || a.hasReservedStart
@@ -105,7 +140,7 @@ theorem C02_flags_semis (s : Str) (a : Model.Analysis) (hA : C02_AnalysisFacts s
     by_cases hf : (decide (a.lengthFirst ≥ LINE) || decide (a.lengthMax > LINE) || a.hasReservedStart
         || decide (a.maxSemiRun ≥ LINE - 1)) = true
     · right; right
-      apply hA.semis
+      apply hsemis
       simp only [Bool.or_eq_true, Bool.and_eq_true, not_or, not_and] at hpre
       have := hpre.2 (by simpa using hf)
       simpa using this
@@ -139,7 +174,7 @@ theorem C02_char_text_roundtrip (c : Ctx) (s : Str) (quoted : Bool)
     · have hd' : ¬((false = true) = true ∨ a.containsTextDelim = true ∧ c.isCif1 = true) := by simp [hd]
       left
       simp only [Bool.false_eq_true, hd, or_self, ↓reduceIte]
-      have hflags := C02_flags_semis s a hA
+      have hflags := C02_flags_semis s a hA.semis
       unfold C02_flags Lemmas.WriterChar.charFlags at hflags
       simp only at hflags
       generalize hfold : (if (a.containsTextDelim || ((decide (a.lengthFirst ≥ LINE) || decide (a.lengthMax > LINE) || a.hasReservedStart
@@ -173,6 +208,17 @@ theorem C02_char_text_roundtrip (c : Ctx) (s : Str) (quoted : Bool)
             rw [hf'] at hfold
             simp only [Bool.or_eq_false_iff] at hfold
             exact hfold.1.2
+
+/-- `C02_char_text_roundtrip` for the analysis the C computes — no hypothesis about the analysis left -/
+theorem C02_write_char_text (c : Ctx) (s : Str) (quoted : Bool)
+    (hcr : (13 : CU) ∉ s)
+    (hdelim : (Model.analyze s (!quoted) (!c.isCif1) LINE).delimLength = 2) :
+    (∃ body c', writeChar c s quoted true = .ok ((a!"\n;") ++ body ++ (a!"\n;"), c') ∧ c'.lastColumn = 1
+        ∧ decodeText true true body = s)
+    ∨ (writeChar c s quoted true = .error Gen.ErrCodes.CIF_DISALLOWED_VALUE ∧ c.isCif1 = true
+        ∧ (Model.analyze s (!quoted) (!c.isCif1) LINE).containsTextDelim = true)
+    ∨ (writeChar c s quoted true = .error Gen.ErrCodes.CIF_DISALLOWED_CHAR ∧ c.isCif1 = true ∧ validate11 s = false) :=
+  C02_char_text_roundtrip c s quoted hcr hdelim (C02_analysis_facts s _ _ _ hcr)
 
 /-! ### statements that need the lexer / parser model (group gD) or the whole-document invariant: kept as `_full`
      propositions; what is proved of them is named below each -/
